@@ -1,10 +1,24 @@
 (* conversions between OCaml natives and the extracted inductive numbers *)
 open Model
 
-let rec nat_of_int (i : int) : nat = if i <= 0 then O else S (nat_of_int (i - 1))
-let nat_of_int i =
-  (* tail recursive for large values *)
-  let rec go acc i = if i <= 0 then acc else go (S acc) (i - 1) in go O i
+(* Peano numbers are shared through a growing cache: [nat_of_int i] costs O(1) amortised and
+   all occurrences of the same number are one value in memory *)
+let nat_cache : nat array ref = ref (Array.make 1024 O)
+let nat_cache_len = ref 1
+let nat_of_int (i : int) : nat =
+  if i <= 0 then O
+  else begin
+    if i >= Array.length !nat_cache then begin
+      let n = Array.make (max (i + 1) (2 * Array.length !nat_cache)) O in
+      Array.blit !nat_cache 0 n 0 !nat_cache_len;
+      nat_cache := n
+    end;
+    while !nat_cache_len <= i do
+      (!nat_cache).(!nat_cache_len) <- S (!nat_cache).(!nat_cache_len - 1);
+      incr nat_cache_len
+    done;
+    (!nat_cache).(i)
+  end
 let int_of_nat (n : nat) : int =
   let rec go acc = function O -> acc | S m -> go (acc + 1) m in go 0 n
 
